@@ -50,6 +50,7 @@ class C12(TalCheck):
                 "prefixes": 0.3, "max_depth": 3, "macros": 0.25, "i18n": 0.1,
                 "entities": 0.25, "code": 0.15, "twins": 0.25,
                 "pyforms": 0.15}
+    async_interrupts = 12
 
     def gen(self, ch: Choices, tier: str) -> dict:
         if ch.coin(0.35):
